@@ -432,8 +432,8 @@ class NodeEngine(Engine):
         return self._cat
 
     def tiers(self, prop):
-        return {"quick": dict(cases=10, per_batch=1, budget_s=400, batch_timeout=900, min_budget_s=150),
-                "thorough": dict(cases=120, per_batch=1, budget_s=1500, batch_timeout=1500, min_budget_s=300)}
+        return {"quick": dict(cases=16, per_batch=1, budget_s=400, batch_timeout=900, min_budget_s=150),
+                "thorough": dict(cases=160, per_batch=1, budget_s=2400, batch_timeout=1500, min_budget_s=300)}
 
     def gen(self, prop, rng, tier):
         return gen_case(rng, tier, self.catalogue())
